@@ -34,7 +34,7 @@ class Divergence(common.ToolError):
 
 
 class _T:
-    __slots__ = ("id", "sem", "state", "pred", "deadline", "timed_out", "thread", "steps", "name", "loc", "wake_mark", "yielding")
+    __slots__ = ("id", "sem", "state", "pred", "deadline", "timed_out", "thread", "steps", "name", "loc", "wake_mark", "yielding", "no_early")
 
     def __init__(self, tid, name):
         self.id = tid
@@ -49,6 +49,7 @@ class _T:
         self.loc = None
         self.wake_mark = 0
         self.yielding = False
+        self.no_early = False
 
 
 class Scheduler:
@@ -76,6 +77,7 @@ class Scheduler:
         self.tls = threading.local()
         self.errors = []
         self.diverged = None
+        self._n_normal = 0
 
     # ------------------------------------------------------------------ thread bookkeeping
     def me(self):
@@ -138,6 +140,14 @@ class Scheduler:
         if cur in out and not cur.yielding:
             out.remove(cur)
             out.insert(0, cur)
+        # A timer may also land first: a thread in a timed wait whose condition does not hold yet can
+        # be woken by its timeout although other threads could still run (they are merely slow).  These
+        # alternatives come last and always cost one deviation.
+        self._n_normal = len(out)
+        if out:
+            early = [t for t in self.threads if t.state == "ready" and t.pred is not None and t.deadline is not None and not t.no_early and t not in out]
+            early.sort(key=lambda t: (t.deadline, t.id))
+            out.extend(early)
         return out
 
     def _choose(self, enabled, cur_enabled):
@@ -152,10 +162,16 @@ class Scheduler:
                 return None
         else:
             idx = 0
-        self.trace.append((len(enabled), idx, cur_enabled))
-        return enabled[idx]
+        self.trace.append((len(enabled), idx, cur_enabled, self._n_normal))
+        nxt = enabled[idx]
+        if idx >= self._n_normal:
+            # the timeout fires early
+            self.now = max(self.now, nxt.deadline)
+            nxt.timed_out = True
+            nxt.pred = None
+        return nxt
 
-    def point(self, pred=None, timeout=None):
+    def point(self, pred=None, timeout=None, early=True):
         """Scheduling point of the calling (current) thread.  With pred: the caller blocks until
         pred() holds (or the virtual timeout fires; returns False then)."""
         cur = self.me()
@@ -174,6 +190,7 @@ class Scheduler:
                 self._teardown(cur)
                 raise SchedAbort()
             cur.pred = pred
+            cur.no_early = not early  # harness-internal waits are never woken by an early timeout
             cur.deadline = (self.now + timeout) if (pred is not None and timeout is not None) else None
             cur.timed_out = False
             cur.state = "ready"
@@ -606,13 +623,13 @@ def _children(trace, prefix_len, bound):
     out = []
     cost = 0
     dev = COST_MODE == "deviation"
-    for i, (n, idx, cur_enabled) in enumerate(trace):
+    for i, (n, idx, cur_enabled, n_normal) in enumerate(trace):
         if i >= prefix_len:
             for alt in range(1, n):
-                c = cost + (1 if (cur_enabled or dev) else 0)
+                c = cost + (1 if (cur_enabled or dev or alt >= n_normal) else 0)
                 if c <= bound:
                     out.append([x[1] for x in trace[:i]] + [alt])
-        if idx > 0 and (cur_enabled or dev):
+        if idx > 0 and (cur_enabled or dev or idx >= n_normal):
             cost += 1
     return out
 
